@@ -841,13 +841,14 @@ Definition cause_last (z : cause) (obs : list obs) : Prop :=
   match z with
   | CzCtlClosed => last_obs obs = Some (ONext (Ready (Ok None)))
   | CzCtlTruncated => last_obs obs = Some (ONext (Ready (Err FsUnexpectedEnd)))
-  | CzCtlProto k => exists fe, last_obs obs = Some (ONext (Ready (Err (FsProto k fe))))
+  | CzCtlProto k => exists fe, last_obs obs = Some (ONext (Ready (Err (FsProto k fe)))) /\ map_ferr fe = Some (FsProto k fe)
   | CzCtlReset => exists q, last_obs obs = Some (ONext (Ready (Err (FsQuic q))))
   | _ => True
   end.
 
 Definition ctl_ok (going : bool) (c : conn) (w : world) (x : sent) (id : N) (fs : fstream) : Prop :=
   exists s0 obs flat0,
+    In id (sn_ann x) /\
     c_ctl0 c = Some s0 /\ fs_inv s0 /\ st_rem s0 = 0 /\
     FrameTrace.hist_ok (c_trace c) /\
     run (c_trace c) s0 false = (obs, fs_with_q fs (rxq w id)) /\
@@ -860,14 +861,14 @@ Definition ctl_ok (going : bool) (c : conn) (w : world) (x : sent) (id : N) (fs 
 
 Definition ctl_inv2 (going : bool) (c : conn) (w : world) (x : sent) : Prop :=
   match c_control c with
-  | None => c_taken c = []
+  | None => c_taken c = [] /\ (forall z, c_cause c = Some z -> ctl_cause z = false)
   | Some (id, fs) => ctl_ok going c w x id fs
   end.
 
 Lemma ctl_inv2_stop c w x : ctl_inv2 true c w x -> ctl_inv2 false c w x.
 Proof.
   unfold ctl_inv2. destruct (c_control c) as [[id fs]|]; [|auto].
-  intros (s0 & obs & flat0 & K1 & K2 & K3 & K4 & K5 & K6 & K7 & K8 & K9 & K10). exists s0, obs, flat0.
+  intros (s0 & obs & flat0 & K0 & K1 & K2 & K3 & K4 & K5 & K6 & K7 & K8 & K9 & K10). exists s0, obs, flat0.
   repeat (split; [assumption|]). discriminate.
 Qed.
 
@@ -878,8 +879,10 @@ Lemma ctl_inv2_ext g c c' w w' x :
   (forall id fs, c_control c = Some (id, fs) -> rxq w' id = rxq w id) ->
   ctl_inv2 g c w x -> ctl_inv2 g c' w' x.
 Proof.
-  intros H1 H2 H3 H4 Hz Hq. unfold ctl_inv2. rewrite H1. destruct (c_control c) as [[id fs]|]; [|congruence].
-  intros (s0 & obs & flat0 & K1 & K2 & K3 & K4 & K5 & K6 & K7 & K8 & K9 & K10). exists s0, obs, flat0.
+  intros H1 H2 H3 H4 Hz Hq. unfold ctl_inv2. rewrite H1. destruct (c_control c) as [[id fs]|].
+  2:{ intros [Ht Hn]. split; [congruence|]. intros z Hc. destruct (ctl_cause z) eqn:Ez; [|reflexivity].
+      rewrite <- Ez. apply Hn. apply Hz; assumption. }
+  intros (s0 & obs & flat0 & K0 & K1 & K2 & K3 & K4 & K5 & K6 & K7 & K8 & K9 & K10). exists s0, obs, flat0.
   rewrite H2, H3, H4, (Hq id fs eq_refl). repeat (split; [assumption|]). split; [|exact K10].
   intros z Hc. destruct (ctl_cause z) eqn:Ez; [apply K9; apply Hz; assumption|].
   destruct z; try exact I; discriminate.
@@ -888,11 +891,12 @@ Qed.
 (* other streams' bookkeeping may move *)
 Lemma ctl_inv2_sent g c w x x' :
   (forall id fs, c_control c = Some (id, fs) -> sn_flat x' id = sn_flat x id /\ sn_end x' id = sn_end x id) ->
+  incl (sn_ann x) (sn_ann x') ->
   ctl_inv2 g c w x -> ctl_inv2 g c w x'.
 Proof.
-  intros Hx. unfold ctl_inv2. destruct (c_control c) as [[id fs]|]; [|auto].
+  intros Hx Hi. unfold ctl_inv2. destruct (c_control c) as [[id fs]|]; [|auto].
   destruct (Hx id fs eq_refl) as [Hf He].
-  intros (s0 & obs & flat0 & K). exists s0, obs, flat0. rewrite Hf, He. exact K.
+  intros (s0 & obs & flat0 & K0 & K). exists s0, obs, flat0. rewrite Hf, He. split; [apply Hi; exact K0|exact K].
 Qed.
 
 Lemma hist_ok_snoc h a : FrameTrace.hist_ok h -> FrameTrace.action_ok a -> FrameTrace.hist_ok (h ++ [a]).
@@ -904,7 +908,7 @@ Lemma ctl_arrive g c w x id fs e :
   ctl_inv2 g (ghost_arrive (EArrive id e) c) (apply_wev (EArrive id e) w) (sent_step x (EArrive id e)).
 Proof.
   intros Hc Hok. unfold ctl_inv2. rewrite (proj1 (proj2 (ghost_arrive_slots (EArrive id e) c))), Hc.
-  intros (s0 & obs & flat0 & H0 & Hi0 & Hr0 & Hh & Hrun & Htk & Hhd & Hj & Hcz & Hgo).
+  intros (s0 & obs & flat0 & Hann & H0 & Hi0 & Hr0 & Hh & Hrun & Htk & Hhd & Hj & Hcz & Hgo).
   assert (Hg : ghost_arrive (EArrive id e) c = set_ghost c (c_ctl0 c) (c_trace c ++ [Arrive e])).
   { unfold ghost_arrive. rewrite Hc, N.eqb_refl. reflexivity. }
   rewrite Hg. exists s0, obs, flat0. cbn [c_ctl0 c_trace c_taken c_cause set_ghost].
@@ -913,6 +917,7 @@ Proof.
     rewrite rxq_set_same. reflexivity. }
   assert (Hact : FrameTrace.action_ok (Arrive e)).
   { destruct e; cbn; auto. }
+  split; [destruct (sent_step_le x (EArrive id e)) as [_ Hi]; apply Hi; exact Hann|].
   split; [exact H0|]. split; [exact Hi0|]. split; [exact Hr0|]. split; [apply hist_ok_snoc; assumption|].
   split; [rewrite Hcur; apply run_snoc_arrive; exact Hrun|]. split; [exact Htk|]. split; [exact Hhd|].
   split.
@@ -962,19 +967,20 @@ Qed.
 
 (* claiming the control stream *)
 Lemma ctl_claim c w x id a' q' sid :
-  c_control c = None -> c_taken c = [] -> c_cause c = None ->
+  c_control c = None -> c_taken c = [] -> c_cause c = None -> In id (sn_ann x) ->
   uni_header (sn_flat x id) = Some (ST_CONTROL, sid, view a' q') ->
   wf_bytes (ar_buf a') -> ar_eos a' = false -> queue_ok q' -> q_end q' = sn_end x id -> rxq w id = q' ->
   ctl_inv2 true
     (set_ghost (set_control c (Some (id, into_frame_stream a'))) (Some (fs_with_q (into_frame_stream a') q')) [])
     w x.
 Proof.
-  intros Hn Ht Hcz Hh Hw He Hq Hqe Hrx. unfold ctl_inv2. cbn [c_control set_ghost set_control set_slots].
+  intros Hn Ht Hcz Hin Hh Hw He Hq Hqe Hrx. unfold ctl_inv2. cbn [c_control set_ghost set_control set_slots].
   set (s0 := fs_with_q (into_frame_stream a') q').
   assert (Hs : sid = None) by (eapply uni_header_no_second; [exact Hh|reflexivity]).
   assert (Hi : fs_inv s0) by (apply into_frame_stream_inv; assumption).
   exists s0, [], (sn_flat x id). cbn [c_ctl0 c_trace c_taken c_cause set_ghost set_control set_slots].
   rewrite Hrx. fold s0.
+  split; [exact Hin|].
   split; [reflexivity|]. split; [exact Hi|]. split; [reflexivity|]. split; [constructor|].
   split; [reflexivity|]. split; [rewrite Ht; reflexivity|].
   split; [unfold s0; rewrite into_frame_stream_V, <- Hs; exact Hh|].
@@ -998,7 +1004,7 @@ Definition cause_matches (z : cause) (r : poll (res fserr (option frame))) : Pro
   match z with
   | CzCtlClosed => r = Ready (Ok None)
   | CzCtlTruncated => r = Ready (Err FsUnexpectedEnd)
-  | CzCtlProto k => exists fe, r = Ready (Err (FsProto k fe))
+  | CzCtlProto k => exists fe, r = Ready (Err (FsProto k fe)) /\ map_ferr fe = Some (FsProto k fe)
   | CzCtlReset => exists q, r = Ready (Err (FsQuic q))
   | _ => True
   end.
@@ -1016,7 +1022,7 @@ Proof.
   intros Hc Hinv Hpn c2 E1 E2 E3 E4 Hcz3. unfold ctl_inv2 in Hinv. rewrite Hc in Hinv.
   set (cur := fs_with_q fs (rxq w1 id)) in *.
   set (w2 := set_rxq w1 id (st_q fs')).
-  destruct Hinv as (s0 & obs & flat0 & H0 & Hi0 & Hr0 & Hh & Hrun & Htk & Hhd & Hj & Hcz & Hgo).
+  destruct Hinv as (s0 & obs & flat0 & Hann & H0 & Hi0 & Hr0 & Hh & Hrun & Htk & Hhd & Hj & Hcz & Hgo).
   destruct (Hgo eq_refl) as (Hic & Hrc & Hfin).
   assert (Hrcur : st_rem cur = 0) by exact Hrc.
   assert (Hfut : fut_ok cur []) by (split; [constructor|reflexivity]).
@@ -1031,6 +1037,7 @@ Proof.
   assert (Hg0 : c_ctl0 c2 = c_ctl0 c1) by (unfold c2, taken_by; destruct r as [[[f|]|e|n]|]; reflexivity).
   assert (Hgt : c_trace c2 = c_trace c1 ++ [CallAuto]) by (unfold c2, taken_by; destruct r as [[[f|]|e|n]|]; reflexivity).
   rewrite E2, E3, E4, Hg0, Hgt, Hcur'.
+  split; [exact Hann|].
   split; [exact H0|]. split; [exact Hi0|]. split; [exact Hr0|].
   split; [apply hist_ok_snoc; [exact Hh|exact I]|].
   split.
@@ -1047,7 +1054,7 @@ Proof.
     - destruct Hcz3 as [q ->]. eauto.
     - subst r. reflexivity.
     - subst r. reflexivity.
-    - destruct Hcz3 as [fe ->]. eauto. }
+    - destruct Hcz3 as (fe & -> & Hmf). eauto. }
   intros Hgo'.
   assert (Hkeep : keeps_rem r = true).
   { unfold goes_on in Hgo'. destruct r as [[[f|]|e|n]|]; try discriminate; try reflexivity. destruct f; try discriminate; reflexivity. }
@@ -1119,7 +1126,7 @@ Proof.
               exists id0, id. repeat split; auto. intros ->. apply Hn0. unfold waiting. apply in_app_iff. right. apply in_ids_mid.
         -- eapply IH in H; [exact H|exact He|exact Hcn| |apply Hf1; reflexivity|exact Hk|].
            ++ eapply live_claim_control; [exact Hdrop|exact Hctl|reflexivity|reflexivity|reflexivity|exact Hann|exact Hnw|exact Htype].
-           ++ unfold ctl_inv2 in Hci. rewrite Hctl in Hci.
+           ++ unfold ctl_inv2 in Hci. rewrite Hctl in Hci. destruct Hci as [Hci _].
               apply (ctl_claim c (set_rxq w id q') x id a' q' sid); auto.
               ** rewrite <- Hv in Hhd. exact Hhd.
               ** apply rxq_set_same.
@@ -1412,6 +1419,12 @@ Proof.
   set (c2 := set_ghost (set_control c1 (Some (id, fs_with_q fs' []))) (c_ctl0 c1) (c_trace c1 ++ [CallAuto])) in *.
   set (w2 := set_rxq w1 id (st_q fs')) in *.
   assert (Hic : is_ctl c1 id) by (exists fs; exact Hctl).
+  assert (Hstep : step_ok (spec_of (fs_with_q fs (rxq w1 id)) [] Open) (E (fs_with_q fs (rxq w1 id)) Open) [] Open (ONext pr) fs').
+  { pose proof Hci1 as Hx. unfold ctl_inv2 in Hx. rewrite Hctl in Hx.
+    destruct Hx as (s0 & obs & flat0 & _ & _ & _ & _ & _ & _ & _ & _ & _ & _ & Hgo).
+    destruct (Hgo eq_refl) as (Hicur & Hrc & _).
+    pose proof (poll_next_spec (fs_with_q fs (rxq w1 id)) [] Open Hicur Hrc) as Hy.
+    rewrite Hpn in Hy. apply Hy. split; [constructor|reflexivity]. }
   (* whatever the connection looks like afterwards, as long as its stream-level parts are those of [taken_by c2 pr] *)
   assert (Hafter : forall c3 w3, stream_part c3 = stream_part (taken_by c2 pr) -> wsame w2 w3 ->
             (forall z, c_cause c3 = Some z -> cause_matches z pr) ->
@@ -1478,7 +1491,8 @@ Proof.
   - apply (Hfail CzCtlClosed code_pc_closed); [reflexivity|reflexivity|intros f0; discriminate|exact H].
   - destruct e as [k fe|qe|].
     + destruct (perr_code k) as [code|] eqn:Hk.
-      * apply (Hfail (CzCtlProto k) code); [reflexivity|eexists; reflexivity|intros f0; discriminate|exact H].
+      * apply (Hfail (CzCtlProto k) code); [reflexivity| |intros f0; discriminate|exact H].
+        inversion Hstep; subst. exists fe. split; [reflexivity|assumption].
       * apply (Hstay (PPanic 53)); [reflexivity|intros f0; discriminate|exact H].
     + destruct qe; try (apply (Hstay POutside); [reflexivity|intros f0; discriminate|exact H]).
       apply (Hfail CzCtlReset code_pc_reset); [reflexivity|eexists; reflexivity|intros f0; discriminate|exact H].
@@ -1750,6 +1764,7 @@ Proof.
     + rewrite ghost_arrive_other.
       * apply (ctl_inv2_sent g c (apply_wev e w) x).
         -- intros j fs0 Hj. rewrite Hc in Hj. inversion Hj; subst. apply sent_step_other. exact Hno.
+        -- apply sent_step_le.
         -- eapply ctl_inv2_ext; [reflexivity|reflexivity|reflexivity|reflexivity|auto| |exact Hci].
            intros j fs0 Hj. rewrite Hc in Hj. inversion Hj; subst. apply apply_wev_rxq_other. exact Hno.
       * unfold on_control. rewrite Hc. destruct e; auto. intros ->. eapply Hno. reflexivity.
@@ -1812,7 +1827,7 @@ Proof.
   unfold dgood, new_drv, running. cbn [d_s d_ph].
   assert (Hf : frozen (new_conn grease) (new_world role credit dflt) sent_init).
   { constructor; cbn; try discriminate; try tauto. constructor. }
-  assert (Hc : ctl_inv2 true (new_conn grease) (new_world role credit dflt) sent_init) by reflexivity.
+  assert (Hc : ctl_inv2 true (new_conn grease) (new_world role credit dflt) sent_init) by (split; [reflexivity|discriminate]).
   split; [exact Hf|]. split; [exact Hc|]. intros _. constructor; auto.
   unfold live. constructor.
   - intros j _. split; [split; constructor|reflexivity].
@@ -1864,9 +1879,10 @@ Theorem control_stream_bytes role grease wt credit dflt h :
   let c := conn_of d in
   let x := sent_of h in
   match c_control c with
-  | None => c_taken c = []
+  | None => c_taken c = [] /\ (forall z, c_cause c = Some z -> ctl_cause z = false)
   | Some (id, _) =>
       exists rest obs,
+        In id (sn_ann x) /\
         uni_header (sn_flat x id) = Some (ST_CONTROL, None, rest) /\
         toks_of obs = map TFrame (c_taken c) /\
         refines obs (frame_outcome settings_verdict rest (sn_end x id)) (sn_end x id) (settled (c_trace c)) /\
@@ -1876,7 +1892,7 @@ Proof.
   intros Hh d c x. pose proof (bytes_invariant role grease wt credit dflt h Hh) as Hd. fold d x in Hd.
   unfold dgood in Hd. unfold c, conn_of. destruct (d_s d) as [[c0 w0] wr0]. destruct Hd as (_ & Hci & _).
   unfold ctl_inv2 in Hci. destruct (c_control c0) as [[id fs]|]; [|exact Hci].
-  destruct Hci as (s0 & obs & flat0 & H0 & Hi0 & Hr0 & Hh0 & Hrun & Htk & Hhd & Hj & Hcz & _).
+  destruct Hci as (s0 & obs & flat0 & Hann & H0 & Hi0 & Hr0 & Hh0 & Hrun & Htk & Hhd & Hj & Hcz & _).
   (* what arrived after the claim *)
   set (fa := match q_end (st_q s0) with Open => arrivals (c_trace c0) | _ => ([], Open) end).
   assert (Hfut : fut_ok s0 (fst fa)).
@@ -1891,7 +1907,7 @@ Proof.
   assert (Hjoin : (sn_flat x id, sn_end x id) = (flat0 ++ fst fa, E s0 (snd fa))).
   { rewrite Hj. unfold joined, fa, E. destruct (q_end (st_q s0)); cbn [fst snd]; rewrite ?app_nil_r; reflexivity. }
   inversion Hjoin as [[Hf He]].
-  exists (V s0 [] ++ fst fa), obs. split; [|split; [exact Htk|split; [rewrite He; exact Href|exact Hcz]]].
+  exists (V s0 [] ++ fst fa), obs. split; [exact Hann|]. split; [|split; [exact Htk|split; [rewrite He; exact Href|exact Hcz]]].
   rewrite Hf. apply uni_header_app. exact Hhd.
 Qed.
 
@@ -1918,4 +1934,233 @@ Proof.
   intros H [A1 A2 A3 A4 A5] Hn.
   destruct (poll_accept_recv_bytes _ x _ _ _ _ _ _ _ H A4 A5 A1 A2 A3) as (_ & _ & Hl).
   destruct (Hl Hn) as [_ Hp]. exact Hp.
+Qed.
+
+(* ====================================================================================== *)
+(* T2: every connection error is one the specification allows for what the peer sent      *)
+(* ====================================================================================== *)
+Definition sdescs (x : sent) : list sdesc :=
+  map (fun id => {| sd_id := id; sd_bytes := sn_flat x id; sd_end := sn_end x id |}) (sn_ann x).
+
+(* the rule table over a prefix of the token list *)
+Lemma ctl_scan_run r : forall fs st more t,
+  match ctl_run r st fs with
+  | (acts, _, Some codes) =>
+      fst (fst (ctl_scan r st (map TFrame fs ++ more) t)) = acts /\
+      snd (fst (ctl_scan r st (map TFrame fs ++ more) t)) = codes
+  | (acts, st', None) =>
+      fst (fst (ctl_scan r st (map TFrame fs ++ more) t)) = acts ++ fst (fst (ctl_scan r st' more t)) /\
+      snd (fst (ctl_scan r st (map TFrame fs ++ more) t)) = snd (fst (ctl_scan r st' more t))
+  end.
+Proof.
+  induction fs as [|f fs IH]; intros st more t; cbn [ctl_run map app ctl_scan].
+  - auto.
+  - destruct (ctl_rule r st f) as [a st1 soft|codes]; [|cbn; auto].
+    specialize (IH st1 more t).
+    destruct (ctl_run r st1 fs) as [[acts st2] [codes|]];
+      destruct (ctl_scan r st1 (map TFrame fs ++ more) t) as [[a1 h1] s1]; cbn [fst snd] in *;
+      destruct IH as [-> ->]; auto.
+Qed.
+
+Lemma ctl_scan_bytes r st bs t : ctl_scan r st (map TByte bs) t = ([], tail_rule (cs_got st) t, []).
+Proof. induction bs as [|b bs IH]; cbn [map ctl_scan]; auto. Qed.
+
+(* a control stream the peer announced contributes its violations to the allowed set *)
+Lemma control_in_spec sc r x id rest :
+  In id (sn_ann x) -> uni_header (sn_flat x id) = Some (ST_CONTROL, None, rest) ->
+  In (control_view_with sc r rest (sn_end x id)) (controls_with sc r (sdescs x)).
+Proof.
+  intros Hin Hh. unfold controls_with, sdescs. apply in_flat_map.
+  exists {| sd_id := id; sd_bytes := sn_flat x id; sd_end := sn_end x id |}. split.
+  - apply in_map_iff. exists id. auto.
+  - unfold classify_stream. cbn [sd_bytes sd_end]. unfold uni_header in Hh.
+    destruct (rfc_take_varint (sn_flat x id)) as [[ty r1]|]; [|discriminate].
+    destruct (has_second_varint ty) eqn:H2.
+    + destruct (rfc_take_varint r1) as [[i r2]|]; discriminate.
+    + inversion Hh; subst. cbn. left. reflexivity.
+Qed.
+
+Lemma hard_of_control sc r h v e : In v (controls_with sc r h) -> In e (cv_hard v) -> In e (hs_hard (uni_spec_with sc r h)).
+Proof.
+  intros Hv He. unfold uni_spec_with. cbn [hs_hard]. apply in_app_iff. right. apply in_flat_map. eauto.
+Qed.
+Lemma closed_of_control sc r h v e : In v (controls_with sc r h) -> In e (cv_closed v) -> In e (hs_soft (uni_spec_with sc r h)).
+Proof.
+  intros Hv He. unfold uni_spec_with. cbn [hs_soft]. apply in_app_iff. right. apply in_app_iff. left. apply in_flat_map. eauto.
+Qed.
+
+(* two announced streams of one critical type *)
+Lemma count_two (p : sclass -> bool) x ty :
+  NoDup (sn_ann x) -> two_of x ty ->
+  (forall id, hdr_type x id = Some ty -> p (classify_stream {| sd_id := id; sd_bytes := sn_flat x id; sd_end := sn_end x id |}) = true) ->
+  (2 <=? count_class p (sdescs x))%nat = true.
+Proof.
+  intros Hnd (a & b & Hne & Ha & Hb & Hta & Htb) Hp. unfold count_class, sdescs.
+  rewrite <- (map_length (fun s => sd_id s)).
+  assert (Hin : forall j, In j (sn_ann x) -> hdr_type x j = Some ty ->
+            In j (map (fun s => sd_id s) (filter (fun s => p (classify_stream s))
+                 (map (fun id => {| sd_id := id; sd_bytes := sn_flat x id; sd_end := sn_end x id |}) (sn_ann x))))).
+  { intros j Hj Ht. apply in_map_iff. exists {| sd_id := j; sd_bytes := sn_flat x j; sd_end := sn_end x j |}.
+    split; [reflexivity|]. apply filter_In. split; [apply in_map_iff; eauto|apply Hp; exact Ht]. }
+  pose proof (Hin a Ha Hta) as Ia. pose proof (Hin b Hb Htb) as Ib.
+  destruct (map (fun s => sd_id s) _) as [|y [|z l]]; cbn [length].
+  - destruct Ia.
+  - exfalso. destruct Ia as [<-|[]]. destruct Ib as [<-|[]]. congruence.
+  - reflexivity.
+Qed.
+
+(* the reference reader only says "aborted" when the stream was *)
+Lemma outcome_aborted sc : forall fuel v en ts q, outcome_from fuel sc v en = (ts, Aborted q) -> en = Broken q.
+Proof.
+  assert (Hcut : forall en q, cut_tail en = Aborted q -> en = Broken q) by (intros [| |e] q H; inversion H; reflexivity).
+  assert (Hbd : forall en q, boundary_tail en = Aborted q -> en = Broken q) by (intros [| |e] q H; inversion H; reflexivity).
+  induction fuel as [|fuel IH]; intros v en ts q H; cbn [outcome_from] in H; [discriminate|].
+  destruct v as [|b0 v']; [inversion H; auto|].
+  destruct (rfc_take_varint (b0 :: v')) as [[ty r1]|]; [|inversion H; auto].
+  destruct (ty =? T_WEBTRANSPORT_STREAM).
+  - destruct (rfc_take_varint r1) as [[sid r2]|]; inversion H; auto.
+  - destruct (rfc_take_varint r1) as [[l r2]|]; [|inversion H; auto].
+    destruct (ty =? T_DATA).
+    + destruct (len r2 <? l); [inversion H; auto|].
+      destruct (outcome_from fuel sc (skipn (N.to_nat l) r2) en) as [ts1 t1] eqn:Ho. inversion H; subst. eapply IH; eauto.
+    + destruct (len r2 <? l); [inversion H; auto|].
+      destruct (classify sc ty (firstn (N.to_nat l) r2)).
+      * destruct (outcome_from fuel sc (skipn (N.to_nat l) r2) en) as [ts1 t1] eqn:Ho. inversion H; subst. eapply IH; eauto.
+      * discriminate.
+      * eapply IH; eauto.
+Qed.
+
+Lemma code_facts :
+  code_pc_closed = E_CLOSED_CRITICAL /\ code_pc_reset = E_CLOSED_CRITICAL /\ code_pc_unexpected_end = E_FRAME_ERROR /\
+  code_par_two_control = E_STREAM_CREATION /\ code_par_two_encoder = E_STREAM_CREATION /\
+  code_par_two_decoder = E_STREAM_CREATION /\
+  perr_code PK_Malformed = Some E_FRAME_ERROR /\ perr_code PK_ForbiddenFrame = Some E_FRAME_UNEXPECTED /\
+  perr_code PK_Settings = Some E_SETTINGS_ERROR.
+Proof. vm_compute. repeat split; reflexivity. Qed.
+
+Theorem errors_allowed role grease wt credit dflt h e :
+  whist_ok h ->
+  let d := run_history h (new_drv role grease wt credit dflt) in
+  d_res d <> RIndet -> d_res d = RErr e ->
+  In e (allowed_errors_with settings_verdict (srole_of role) (sdescs (sent_of h))).
+Proof.
+  intros Hh d Hni Hres.
+  pose proof (exactly_once role grease wt credit dflt h) as Hx. cbv zeta in Hx. fold d in Hx. specialize (Hx Hni).
+  pose proof (control_stream_bytes role grease wt credit dflt h Hh) as Hb. cbv zeta in Hb. fold d in Hb.
+  pose proof (stream_types_bytes role grease wt credit dflt h Hh) as Hf. cbv zeta in Hf. fold d in Hf.
+  set (x := sent_of h) in *. set (c := conn_of d) in *.
+  destruct Hh as [_ Hnd]. fold x in Hnd.
+  destruct code_facts as (K1 & K2 & K3 & K4 & K5 & K6 & K7 & K8 & K9).
+  unfold allowed_errors_with. apply in_app_iff.
+  (* facts about the control stream, when there is one *)
+  assert (Hctlfacts : forall id fs, c_control c = Some (id, fs) ->
+            exists rest obs, In (control_view_with settings_verdict (srole_of role) rest (sn_end x id))
+                               (controls_with settings_verdict (srole_of role) (sdescs x)) /\
+              toks_of obs = map TFrame (c_taken c) /\
+              refines obs (frame_outcome settings_verdict rest (sn_end x id)) (sn_end x id) (settled (c_trace c)) /\
+              (forall z, c_cause c = Some z -> cause_last z obs)).
+  { intros id fs Hc. rewrite Hc in Hb. destruct Hb as (rest & obs & Hin & Hh & Htk & Href & Hcz).
+    exists rest, obs. split; [apply control_in_spec; assumption|auto]. }
+  (* a failure of the control stream itself: the last observation is final and C02 explains it *)
+  assert (final_facts : forall z, c_cause c = Some z -> ctl_cause z = true ->
+            exists id rest obs,
+              In (control_view_with settings_verdict (srole_of role) rest (sn_end x id))
+                 (controls_with settings_verdict (srole_of role) (sdescs x)) /\
+              toks_of obs = map TFrame (c_taken c) /\ cause_last z obs /\
+              (forall o0, last_obs obs = Some o0 -> obs_final o0 = true ->
+                 exists t, tail_of_obs o0 = Some t /\
+                   refines_final (toks_of obs) t (frame_outcome settings_verdict rest (sn_end x id)) (sn_end x id))).
+  { intros z Hz Hk. destruct (c_control c) as [[id fs]|] eqn:Hc.
+    - destruct (Hctlfacts id fs eq_refl) as (rest & obs & Hv & Htk & Href & Hcz).
+      exists id, rest, obs. split; [exact Hv|]. split; [exact Htk|]. split; [apply Hcz; exact Hz|].
+      destruct Href as (_ & Hfin & _). exact Hfin.
+    - destruct Hb as [_ Hb]. rewrite (Hb z Hz) in Hk. discriminate. }
+  destruct (ctl_run (srole_of role) cs_init (c_taken c)) as [[acts st] [codes|]] eqn:Hrun.
+  - (* a frame of the control stream was refused *)
+    destruct Hx as (_ & e' & He' & Hin). rewrite Hres in He'. inversion He'; subst e'.
+    destruct (c_control c) as [[id fs]|] eqn:Hc.
+    2:{ destruct Hb as [Hb _]. rewrite Hb in Hrun. cbn in Hrun. discriminate. }
+    destruct (Hctlfacts id fs eq_refl) as (rest & obs & Hv & Htk & Href & _).
+    left. eapply hard_of_control; [exact Hv|].
+    unfold control_view_with. destruct (frame_outcome settings_verdict rest (sn_end x id)) as [ts t] eqn:Ho.
+    destruct Href as ((more & Hmore) & _). cbn [fst] in Hmore. rewrite Htk in Hmore. subst ts.
+    pose proof (ctl_scan_run (srole_of role) (c_taken c) cs_init more t) as Hs. rewrite Hrun in Hs.
+    destruct (ctl_scan (srole_of role) cs_init (map TFrame (c_taken c) ++ more) t) as [[a1 h1] s1]. cbn [fst snd] in Hs.
+    destruct Hs as [_ ->]. cbn [cv_hard]. exact Hin.
+  - destruct Hx as (Hacts & Hcause). destruct (Hcause e Hres) as (z & Hz & Hpc).
+    destruct Hf as [F1 F2 F3 F4 F5 F6].
+    destruct Hpc as [Hpar|[[Ez Ee]|[[Ez Ee]|[[Ez Ee]|(k & Ez & Hk)]]]]; try subst z; try subst e.
+    + (* a second critical stream *)
+      left. unfold uni_spec_with. cbn [hs_hard]. apply in_app_iff. left. unfold duplicates.
+      destruct Hpar as [[Ez Ee]|[[Ez Ee]|[[Ez Ee]|Ez]]]; try subst z; try subst e; [| | |congruence].
+      * rewrite (count_two is_control x ST_CONTROL Hnd (F3 Hz)); [rewrite K4; left; reflexivity|].
+        intros j Ht. unfold hdr_type, uni_header, classify_stream in *. cbn [sd_bytes].
+        destruct (rfc_take_varint (sn_flat x j)) as [[ty r1]|]; [|discriminate].
+        destruct (has_second_varint ty) eqn:H2; [destruct (rfc_take_varint r1) as [[i r2]|]; [|discriminate]|];
+          inversion Ht; subst; try discriminate H2; reflexivity.
+      * rewrite (count_two is_encoder x ST_QPACK_ENCODER Hnd (F4 Hz)); [rewrite orb_true_r, K5; left; reflexivity|].
+        intros j Ht. unfold hdr_type, uni_header, classify_stream in *. cbn [sd_bytes].
+        destruct (rfc_take_varint (sn_flat x j)) as [[ty r1]|]; [|discriminate].
+        destruct (has_second_varint ty) eqn:H2; [destruct (rfc_take_varint r1) as [[i r2]|]; [|discriminate]|];
+          inversion Ht; subst; try discriminate H2; reflexivity.
+      * rewrite (count_two is_decoder x ST_QPACK_DECODER Hnd (F5 Hz)); [rewrite !orb_true_r, K6; left; reflexivity|].
+        intros j Ht. unfold hdr_type, uni_header, classify_stream in *. cbn [sd_bytes].
+        destruct (rfc_take_varint (sn_flat x j)) as [[ty r1]|]; [|discriminate].
+        destruct (has_second_varint ty) eqn:H2; [destruct (rfc_take_varint r1) as [[i r2]|]; [|discriminate]|];
+          inversion Ht; subst; try discriminate H2; reflexivity.
+    + (* the control stream was reset *)
+      destruct (final_facts CzCtlReset Hz eq_refl) as (id & rest & obs & Hv & Htk & Hlast & Hfin).
+      destruct Hlast as [q Hlast]. rewrite Hlast in Hfin.
+      destruct (Hfin _ eq_refl eq_refl) as (t & Ht & Hrf). cbn in Ht. inversion Ht; subst t.
+      right. eapply closed_of_control; [exact Hv|]. unfold control_view_with.
+      destruct (frame_outcome settings_verdict rest (sn_end x id)) as [ts tl] eqn:Ho.
+      destruct (ctl_scan (srole_of role) cs_init ts tl) as [[a1 h1] s1]. cbn [cv_closed].
+      assert (Hbr : exists q0, sn_end x id = Broken q0).
+      { destruct Hrf as [[_ Hs]|[[Hx _]|(ee0 & rst & He0 & _)]]; [|discriminate Hx|eauto].
+        cbn [snd] in Hs. subst tl. unfold frame_outcome in Ho. apply outcome_aborted in Ho. eauto. }
+      destruct Hbr as [q0 ->]. cbn. rewrite K2. left. reflexivity.
+    + (* the control stream ended inside a frame *)
+      destruct (final_facts CzCtlTruncated Hz eq_refl) as (id & rest & obs & Hv & Htk & Hlast & Hfin).
+      rewrite Hlast in Hfin.
+      destruct (Hfin _ eq_refl eq_refl) as (t & Ht & Hrf). cbn in Ht. inversion Ht; subst t.
+      left. eapply hard_of_control; [exact Hv|]. unfold control_view_with.
+      destruct (frame_outcome settings_verdict rest (sn_end x id)) as [ts tl] eqn:Ho. cbn [fst snd] in Hrf.
+      assert (Hshape : tl = FrameError /\ exists bs, ts = map TFrame (c_taken c) ++ map TByte bs).
+      { destruct Hrf as [[H1 H2]|[(_ & H2 & bs & H3)|(ee0 & rst & _ & Hx & _)]]; [| |discriminate Hx].
+        - split; [auto|]. exists []. rewrite app_nil_r, <- Htk. auto.
+        - split; [auto|]. exists bs. rewrite <- Htk. auto. }
+      destruct Hshape as [-> [bs ->]].
+      pose proof (ctl_scan_run (srole_of role) (c_taken c) cs_init (map TByte bs) FrameError) as Hs. rewrite Hrun in Hs.
+      rewrite ctl_scan_bytes in Hs.
+      destruct (ctl_scan (srole_of role) cs_init (map TFrame (c_taken c) ++ map TByte bs) FrameError) as [[a1 h1] s1].
+      cbn [fst snd] in Hs. destruct Hs as [_ ->]. cbn [cv_hard tail_rule]. rewrite K3. left. reflexivity.
+    + (* the control stream ended between frames *)
+      destruct (final_facts CzCtlClosed Hz eq_refl) as (id & rest & obs & Hv & Htk & Hlast & Hfin).
+      rewrite Hlast in Hfin.
+      destruct (Hfin _ eq_refl eq_refl) as (t & Ht & Hrf). cbn in Ht. inversion Ht; subst t.
+      left. eapply hard_of_control; [exact Hv|]. unfold control_view_with.
+      destruct (frame_outcome settings_verdict rest (sn_end x id)) as [ts tl] eqn:Ho. cbn [fst snd] in Hrf.
+      assert (Hshape : tl = CleanEnd /\ ts = map TFrame (c_taken c) ++ []).
+      { destruct Hrf as [[H1 H2]|[(Hx & _)|(ee0 & rst & _ & Hx & _)]]; [|discriminate Hx|discriminate Hx].
+        split; [auto|]. rewrite app_nil_r, <- Htk. auto. }
+      destruct Hshape as [-> ->].
+      pose proof (ctl_scan_run (srole_of role) (c_taken c) cs_init [] CleanEnd) as Hs. rewrite Hrun in Hs.
+      destruct (ctl_scan (srole_of role) cs_init (map TFrame (c_taken c) ++ []) CleanEnd) as [[a1 h1] s1].
+      cbn [fst snd ctl_scan] in Hs. destruct Hs as [_ ->]. cbn [cv_hard tail_rule]. rewrite K1. left. reflexivity.
+    + (* the frame layer refused a frame of the control stream *)
+      destruct (final_facts (CzCtlProto k) Hz eq_refl) as (id & rest & obs & Hv & Htk & Hlast & Hfin).
+      destruct Hlast as (fe & Hlast & Hmf). rewrite Hlast in Hfin.
+      destruct (Hfin _ eq_refl eq_refl) as (t & Ht & Hrf). cbn [tail_of_obs] in Ht.
+      left. eapply hard_of_control; [exact Hv|]. unfold control_view_with.
+      destruct (frame_outcome settings_verdict rest (sn_end x id)) as [ts tl] eqn:Ho. cbn [fst snd] in Hrf.
+      assert (Hshape : tl = t /\ ts = map TFrame (c_taken c) ++ []).
+      { destruct fe; cbn in Ht; try discriminate Ht; inversion Ht; subst t;
+          (destruct Hrf as [[H1 H2]|[(Hx & _)|(ee0 & rst & _ & Hx & _)]]; [|discriminate Hx|discriminate Hx]);
+          (split; [auto|]); rewrite app_nil_r, <- Htk; auto. }
+      destruct Hshape as [-> ->].
+      pose proof (ctl_scan_run (srole_of role) (c_taken c) cs_init [] t) as Hs. rewrite Hrun in Hs.
+      destruct (ctl_scan (srole_of role) cs_init (map TFrame (c_taken c) ++ []) t) as [[a1 h1] s1].
+      cbn [fst snd ctl_scan] in Hs. destruct Hs as [_ ->]. cbn [cv_hard].
+      destruct fe; cbn in Ht; try discriminate Ht; inversion Ht; subst t; cbn [tail_rule];
+        cbn in Hmf; inversion Hmf; subst k; rewrite ?K7, ?K8, ?K9 in Hk; inversion Hk; subst e; left; reflexivity.
 Qed.
